@@ -1308,6 +1308,21 @@ func execPeerMsg(_ *State, line string) Result {
 	panic("harness: unknown op " + t[0])
 }
 
+// pre-commitment messages with exactly `count` copies of one valid point
+func c08PreCorpus() []string {
+	k := crypto.NewKeyFromSeed(bytes.Repeat([]byte{7}, 64)).Public()
+	var out []string
+	for _, count := range []int{1, 2, 1023, 1024, 1025, 1026} {
+		d := append([]byte{p2p.PeerMessageTypePreCommitments}, make([]byte, 64)...)
+		d = binary.BigEndian.AppendUint16(d, uint16(count))
+		for i := 0; i < count; i++ {
+			d = append(d, k[:]...)
+		}
+		out = append(out, c08ParseLine(2, d))
+	}
+	return out
+}
+
 func init() {
 	Register(&Subsystem{
 		Name: "peermsg",
@@ -1322,6 +1337,7 @@ func init() {
 				"parse 2 0f" + strings.Repeat("00", 66) + " ? ? ?", "parse 2 0f" + strings.Repeat("00", 79) + " ? ? ?",
 				"parse 2 04" + strings.Repeat("00", 64) + "777700010000 ? ? ?", "parse 2 04" + strings.Repeat("00", 64) + "7777000100 ? ? ?"},
 			{"huge 8 4294967292", "huge 9 4294967295", "huge 22 4294967293"},
+			c08PreCorpus(),
 		},
 		Gen:  c08Gen,
 		Exec: execPeerMsg,
